@@ -57,7 +57,7 @@ impl Property for C10 {
         1600
     }
     fn quick_cases(&self) -> u64 {
-        48_000
+        192_000
     }
     fn describe(&self, bytes: &[u8]) -> J {
         let (source, m) = decode(bytes);
